@@ -89,7 +89,7 @@ func main() {
 	nTwo := flag.Int("tworun", 200, "two-run cases (mixed options)")
 	nExp := flag.Int("explicit", 60, "two-run cases with an explicit vulnerability list")
 	nPin := flag.Int("pinned", 40, "two-run cases with every vulnerable transitive package configured upgrade level none")
-	nFlip := flag.Int("devflip", 12, "two-run cases built so that a dev-only vulnerability stops being dev-only after the patch")
+	nFlip := flag.Int("devflip", 12, "boundary two-run cases built on purpose: n dev-flip (a dev-only vulnerability stops being dev-only after the patch), 5n alias-twin (one npm package under its own name and aliases), 2n maven-test-scope")
 	nOdd := flag.Int("odd", 20, "two-run cases with package names that need escaping in a gjson path (dots, wildcards)")
 	nCon := flag.Int("construct", 300, "synthetic ConstructPatches cases (structured)")
 	nWild := flag.Int("wild", 150, "synthetic ConstructPatches cases (duplicates, removals, odd types)")
@@ -225,17 +225,23 @@ func main() {
 		two(*nExp, "explicit", true, false, false)
 		two(*nOdd, "odd-names", false, true, false)
 		two(*nPin, "pinned-transitive", false, false, true)
-		for i := 0; i < *nFlip; i++ {
-			u, o := genDevFlip(r)
-			tr := runTwoRun(u, o, fmt.Sprintf("%s/flip%d", dir, i), 4)
-			os.RemoveAll(fmt.Sprintf("%s/flip%d", dir, i))
-			c := wrapTwoRun(tr, "dev-flip")
-			emit(kt, c)
-			if c.OK {
-				emit(kf, filterFromAnalysis(o, tr.A0))
-				emit(kg, graphFromAnalysis(o, tr.A0))
+		templ := func(n int, stream string, gen func(*rand.Rand) (*Universe, Opts)) {
+			for i := 0; i < n; i++ {
+				u, o := gen(r)
+				d := fmt.Sprintf("%s/%s%d", dir, stream, i)
+				tr := runTwoRun(u, o, d, 4)
+				os.RemoveAll(d)
+				c := wrapTwoRun(tr, stream)
+				emit(kt, c)
+				if c.OK {
+					emit(kf, filterFromAnalysis(o, tr.A0))
+					emit(kg, graphFromAnalysis(o, tr.A0))
+				}
 			}
 		}
+		templ(*nFlip, "dev-flip", genDevFlip)
+		templ(*nFlip*5, "alias-twin", genAliasTwin)
+		templ(*nFlip*2, "maven-test-scope", genMavenTestScope)
 		for i := 0; i < *nCon; i++ {
 			emit(kc, genConstruct(r, false))
 		}
